@@ -2,7 +2,7 @@ use std::{fmt::Display, ops::Div};
 
 use compact_str::{CompactString, ToCompactString};
 use itertools::Itertools;
-use num_traits::{ToPrimitive, Zero};
+use num_traits::{CheckedAdd, CheckedMul, ToPrimitive, Zero};
 
 use crate::{
     arithmetic::{Exponent, Power, Rational, pretty_exponent},
@@ -199,6 +199,14 @@ impl Canonicalize for UnitFactor {
     fn is_trivial(&self) -> bool {
         self.exponent == Rational::zero()
     }
+
+    fn try_merge(self, other: Self) -> Option<Self> {
+        Some(UnitFactor {
+            prefix: self.prefix,
+            unit_id: self.unit_id,
+            exponent: self.exponent.checked_add(&other.exponent)?,
+        })
+    }
 }
 
 impl Power for UnitFactor {
@@ -208,6 +216,14 @@ impl Power for UnitFactor {
             unit_id: self.unit_id,
             exponent: self.exponent * e,
         }
+    }
+
+    fn try_power(self, e: Exponent) -> Option<Self> {
+        Some(UnitFactor {
+            prefix: self.prefix,
+            unit_id: self.unit_id,
+            exponent: self.exponent.checked_mul(&e)?,
+        })
     }
 }
 
